@@ -493,6 +493,19 @@ fn lazy_rows(case: &Case, doc: &[u8], plan: &ReadPlan) -> Result<(String, bool),
     if ref_res.is_err() {
         return Ok(("rejected".into(), false));
     }
+    // the lazy entry point and the whole-value decode of the same text agree on the rows
+    if let Ok(text) = std::str::from_utf8(doc) {
+        if let Ok(Value::Grid(g)) = libhaystack::encoding::zinc::decode::from_str(text) {
+            let whole: Vec<String> = g.rows.iter().map(|d| canon(&Value::make_dict(d.clone()))).collect();
+            if whole != ref_rows {
+                let k = whole.iter().zip(ref_rows.iter()).take_while(|(a, b)| a == b).count();
+                return Err((
+                    "C11 lazy-rows rows differ from the rows of the whole-value decode".into(),
+                    format!("first difference at row {k}: the lazy iterator yields {} rows, the grid decoded from the same text has {}", ref_rows.len(), whole.len()),
+                ));
+            }
+        }
+    }
     // marks: from the generator when present, cross-checked against the independent tokenizer
     let (header_end, line_ends): (usize, Vec<usize>) = match (case.extra_usize("header_end"), case.extra.get("row_ends")) {
         (Some(h), Some(serde_json::Value::Array(a))) => (h, a.iter().filter_map(|x| x.as_u64()).map(|x| x as usize).collect()),
@@ -706,6 +719,16 @@ impl Engine for C11 {
                     if serde_json::from_slice::<Value>(&t2).is_ok() {
                         text = t2;
                         mutated = Some(name);
+                    }
+                } else if text.len() <= 1500 && mu.chance(1, 4) {
+                    // one member-level fault (repeated / moved / foreign member), kept when still accepted
+                    let variants = mutate::json_member_variants(&text);
+                    if !variants.is_empty() {
+                        let k = mu.below(variants.len() as u64) as usize;
+                        if serde_json::from_slice::<Value>(&variants[k].1).is_ok() {
+                            text = variants[k].1.clone();
+                            mutated = Some("json-members");
+                        }
                     }
                 }
                 c = Case::new("C11", "pipe-json", &text);
